@@ -22,6 +22,31 @@ PROLOGUE = b"NoiseAPIInit\x00\x00"
 NAME = b"Noise_NNpsk0_25519_ChaChaPoly_SHA256"
 
 
+# ---------------------------------------------------------------------------
+# Determinism: the X25519 ephemeral keys of BOTH sides come from the noise
+# library's ED25519.generate_keypair (os.urandom underneath).  A run must be a pure
+# function of the case, so that third-party generator is replaced by a counter-based
+# one; `reset_ephemerals(n)` is called at the start of every case.
+_EPH = [0]
+
+
+def _det_generate_keypair(self):
+    import hashlib
+
+    from noise.backends.default.keypairs import KeyPair25519
+
+    _EPH[0] += 1
+    return KeyPair25519.from_private_bytes(hashlib.sha256(b"vf-ephemeral-%d" % _EPH[0]).digest())
+
+
+def reset_ephemerals(n: int = 0) -> None:
+    from noise.backends.default.diffie_hellmans import ED25519
+
+    if ED25519.generate_keypair is not _det_generate_keypair:
+        ED25519.generate_keypair = _det_generate_keypair
+    _EPH[0] = n * 1000
+
+
 def nonce(n: int) -> bytes:
     return b"\x00\x00\x00\x00" + struct.pack("<Q", n)
 
